@@ -1141,8 +1141,7 @@ def drain(eng, st, it):
                 nxt = []
                 for (s1, acc) in live:
                     if it.name == 'Filter':
-                        arg = item if isinstance(item, Ref) else eng.ref_to(s1, item, False, 'flt')
-                        arg = eng.ref_to(s1, arg, False, 'fltref')   # predicate takes &Self::Item
+                        arg = eng.ref_to(s1, item, False, 'flt')   # predicate takes &Self::Item (Item is &T for slice iterators, T for owning ones)
                     else:
                         arg = item
                     for (s2, kind, val) in eng.call_value(s1, f, [arg], None):
@@ -1196,3 +1195,53 @@ def _iter_count(eng, st, args, ci):
 @intrinsic(r'^<(std::vec::)?Vec<.*> as (std::iter::)?FromIterator<.*>>::from_iter::<', 'Vec::from_iter', prio=1)
 def _vec_from_iter(eng, st, args, ci):
     return [(s, 'ret', Seq(items)) for (s, items) in drain(eng, st, args[0])]
+
+
+@intrinsic(r'^<(std::option::)?Option<&?' + _INTS + r'> as (std::cmp::)?PartialEq>::(eq|ne)$', 'Option<int/char> PartialEq')
+def _opt_int_eq(eng, st, args, ci):
+    a, b = (_deref_arg(eng, st, x) for x in args)
+    both_some = z3.And(a.discr == 1, b.discr == 1)
+    if 1 in a.payloads and 1 in b.payloads:
+        x = _as_bv(_deref_arg(eng, st, a.payloads[1].items[0]))
+        y = _as_bv(_deref_arg(eng, st, b.payloads[1].items[0]))
+        inner = x.e == y.e
+    else:
+        inner = z3.BoolVal(False)
+    r = z3.Or(z3.And(a.discr == 0, b.discr == 0), z3.And(both_some, inner))
+    return r if ci.func.endswith('::eq') else z3.Not(r)
+
+
+@intrinsic(r'^<std::ops::Range<(usize|u32|i32|isize)> as (std::iter::)?Iterator>::(any|all)::<', 'Range<int>::{any,all} with concrete bounds (short-circuit; closure body = real MIR, effects kept)')
+def _range_any_all(eng, st, args, ci):
+    is_any = '>::any::<' in ci.func
+    rref, f = args
+    rng = eng.read_ref(st, rref)
+    a, b = rng.items[0].concrete(), rng.items[1].concrete()
+    if a is None or b is None:
+        raise Unsupported('Range::any/all with symbolic bounds')
+    results = []
+    live = [st]
+    for i in range(a, b):
+        nxt = []
+        for s in live:
+            for (s2, kind, val) in eng.call_value(s, f, [BV(z3.BitVecVal(i, rng.items[0].e.size()), rng.items[0].ty)], None):
+                if kind != 'ret':
+                    results.append((s2, kind, val))
+                    continue
+                stop = val if is_any else z3.Not(val)
+                can_stop = eng.feasible(s2, stop)
+                can_go = eng.feasible(s2, z3.Not(stop))
+                if can_stop and can_go:
+                    s3 = s2.fork()
+                    s3.assume(z3.Not(stop))
+                    nxt.append(s3)
+                    s2.assume(stop)
+                    results.append((s2, 'ret', z3.BoolVal(is_any)))
+                elif can_stop:
+                    results.append((s2, 'ret', z3.BoolVal(is_any)))
+                elif can_go:
+                    nxt.append(s2)
+        live = nxt
+    for s in live:
+        results.append((s, 'ret', z3.BoolVal(not is_any)))
+    return results
